@@ -91,6 +91,9 @@ func judgeTimers(t *testing.T, sc TimerScript) (key, msg string) {
 	var obs, mod []int64
 	var herr string
 	if err := core.Bubble(t, func() { obs, mod, herr = runTimers(sc) }); err != nil {
+		if core.IsInconclusive(err) {
+			return "inconclusive", err.Error()
+		}
 		return "C14/bubble", err.Error()
 	}
 	if herr != "" {
@@ -161,6 +164,10 @@ func TestC14(t *testing.T) {
 	rapid.Check(t, func(rt *rapid.T) {
 		sc := genTimerScript(rt)
 		key, msg := judgeTimers(t, sc)
+		if key == "inconclusive" {
+			st.AddInconclusive()
+			return
+		}
 		// non-trivial: a stop or re-arm while a timer is armed; class: stop directly after arm
 		nt, imm, armed := false, false, true
 		for i, op := range sc.Ops {
